@@ -266,6 +266,11 @@ func init() {
 		},
 		Items: func(tier string) []Item {
 			items := coreItems(tier, c05Scenario, func(a *Alpha) { a.NegStr = true; a.PathT1 = true; a.DoubleT2 = true }, []int{0, 1}, 0)
+			// every primitive catching by default: two deviating nodes among catching neighbours within k=2
+			for _, it := range coreItemsFiltered(tier, c05Scenario, func(a *Alpha) { a.Lite = true; a.CatchAll = true }, []int{0, 1}, 2, nil) {
+				it.Name = "catching-neighbours/" + it.Name
+				items = append(items, it)
+			}
 			return append(items, Item{Name: "catching-node-behind-preprocess", MaxDevs: -1, Run: c05PreprocessScenario})
 		},
 	})
@@ -343,6 +348,17 @@ func c05PreprocessScenario(x *mc.X) *mc.Outcome {
 		x.Note("container %d (0 slice, 1 struct) of Preprocess(string->int, Int.GT(2).Catch(-7)); element classes %v (0 ok, 1 caught by the wrapped node, 2 preprocess error, 3 wrongly typed input)", mode, idx)
 		out.Viol = append(out.Viol, &mc.Violation{Key: fmt.Sprintf("C05:preprocess-neighbour:%d", mode), What: "the failure of a Preprocess function next to a catching node is not reported exactly where it happened", Expected: fmt.Sprint(want), Observed: fmt.Sprint(have)})
 		return out
+	}
+	// what was reported for a neighbour is that neighbour's issue, whole: filed under its path, saying so itself,
+	// with the code and a message of its own failure — whatever a catching node swallowed before or after it
+	for i := range idx {
+		for _, is := range issues[keys[i]] {
+			if is.Path != keys[i] || is.Code == "gt" || is.Message == "" {
+				x.Note("container %d (0 slice, 1 struct) of Preprocess(string->int, Int.GT(2).Catch(-7)); element classes %v (0 ok, 1 caught by the wrapped node, 2 preprocess error, 3 wrongly typed input)", mode, idx)
+				out.Viol = append(out.Viol, &mc.Violation{Key: fmt.Sprintf("C05:preprocess-neighbour-issue:%d", mode), What: "the issue reported for a node next to a catching node is not that node's own issue any more", Expected: fmt.Sprintf("path=%s, a code other than the swallowed test's (gt), a message", keys[i]), Observed: fmt.Sprintf("path=%s code=%s message=%q", is.Path, is.Code, is.Message)})
+				return out
+			}
+		}
 	}
 	for i, c := range idx {
 		if classes[c].issue == "" && i < len(got) && got[i] != classes[c].val {
